@@ -11,34 +11,30 @@ from symexec import Heap, Lin
 from rules_common import where
 
 
-def run(ctx):
-    db = ctx.db()
-    rep = ctx.report
-    rep.explanation = (
-        "Three structural necessary conditions of allocator consistency: the field assignments of orc_code_chunk_split and "
-        "orc_code_chunk_merge are evaluated symbolically (linear expression rewriting over the pre-state) and compared with the "
-        "tiling identities (offsets adjacent, sizes sum to the old size, list links consistent, merged chunk freed after its last "
-        "use); orc_code_allocate_codemem derives code and exec from the same chunk offset, marks the chunk used and splits only a "
-        "larger chunk by the aligned size; the memcpy into the chunk copies exactly the size passed to the allocator, whose "
-        "rounding never shrinks it. Histories of compiles and frees are NOT explored.")
-    rep.assumptions += ["linear integer arithmetic without overflow in chunk offsets/sizes (all below the 64 KiB region size)"]
+def d1(db, rep, split_rule="D1-SPLIT", merge_rule="D1-MERGE"):
+    """split/merge conserve the tiling and keep the doubly linked chunk list consistent."""
     sp = db.func("orc_code_chunk_split", "orccodemem")
     mg = db.func("orc_code_chunk_merge", "orccodemem")
     rep.saw(sp)
     rep.saw(mg)
 
     # ---- D1 split ------------------------------------------------------------
-    h = Heap()
+    rec = db.record("OrcCodeChunk")
+    fields = [f["name"] for f in rec["fields"]]
+    if len(sp.params) != 2:
+        raise AnalysisBroken("orc_code_chunk_split: expected (chunk, size) parameters")
+    C, SZ = sp.params[0]["name"], sp.params[1]["name"]
+    h = Heap({C: fields})
     h.run([sp.body])
     opaque = [x for x in h.log if x[0] == "opaque"]
     if opaque:
-        rep.info("split: statements not interpreted: %s" % opaque[:3])
-    C = "chunk"
-    new = h.vars.get("newchunk")
+        raise AnalysisBroken("orc_code_chunk_split contains statements the symbolic evaluator cannot interpret: %s" % opaque[:3])
+    allocs = [x[1] for x in h.log if x[0] == "alloc"]
+    new = h.vars.get(allocs[0]) if allocs else None
     newsym = new.single() if new is not None else None
     if newsym is None:
         raise AnalysisBroken("orc_code_chunk_split: new chunk object not identified")
-    size = Lin.sym("size")
+    size = Lin.sym(SZ)
     off0, size0 = Lin.sym("%s.offset@0" % C), Lin.sym("%s.size@0" % C)
     next0, region0 = Lin.sym("%s.next@0" % C), Lin.sym("%s.region@0" % C)
     F = h.fields
@@ -51,14 +47,16 @@ def run(ctx):
         ("new.prev == old", F.get((newsym, "prev")) == Lin.sym(C)),
         ("new.next == old.next", F.get((newsym, "next")) == next0),
         ("old'.next == new", F.get((C, "next")) == Lin.sym(newsym)),
-        ("new.used == 0 (zero-filled)", any(c[0] == "call" and c[1][0] == "memset" for c in h.log) and (newsym, "used") not in F),
+        # zero-filled, stored as 0, or copied from the chunk being split (which D2 `return-chunk` shows to be unused)
+        ("new.used == 0 (zero-filled)", (any(c[0] == "call" and c[1][0] in ("memset", "calloc") for c in h.log) and (newsym, "used") not in F) or
+         F.get((newsym, "used")) in (Lin(const=0), Lin.sym("%s.used@0" % C))),
     ]
     back = [x for x in h.log if x[0] == "cond-final" and x[1][0] == ("%s.next@0" % C, "prev")]
     obligations.append(("old.next.prev == new when old.next != NULL", bool(back) and back[0][1][1] == Lin.sym(newsym) and "next" in back[0][1][2]))
     ret = [x for x in h.log if x[0] == "return"]
     obligations.append(("returns the new chunk", bool(ret) and ret[-1][1] == Lin.sym(newsym)))
     for name, ok in obligations:
-        rep.check(bool(ok), "D1-SPLIT", where(sp), name, "holds symbolically: %s" % name,
+        rep.check(bool(ok), split_rule, where(sp), name, "holds symbolically: %s" % name,
                   "split breaks the tiling identity `%s` (post-state: %s)" % (name, {k: repr(v) for k, v in F.items()}))
 
     # ---- D1 merge ------------------------------------------------------------
@@ -87,7 +85,7 @@ def run(ctx):
                 last_use_ok = False
     obligations.append(("no use of c2 after free", last_use_ok))
     for name, ok in obligations:
-        rep.check(bool(ok), "D1-MERGE", where(mg), name, "holds symbolically: %s" % name,
+        rep.check(bool(ok), merge_rule, where(mg), name, "holds symbolically: %s" % name,
                   "merge breaks the identity `%s` (post-state: %s)" % (name, {k: repr(v) for k, v in F.items()}))
     # merge callers: only adjacent free chunks are merged
     cf = db.func("orc_code_chunk_free", "orccodemem")
@@ -101,10 +99,25 @@ def run(ctx):
         else:
             need = [("chunk->prev", True), ("chunk->prev->used", False)]
         ok = all(n_ in conds for n_ in need)
-        rep.check(ok, "D1-MERGE", where(cf), "merge(%s)-guard" % arg, "merge only with an existing, unused neighbour (%s)" % need,
+        rep.check(ok, merge_rule, where(cf), "merge(%s)-guard" % arg, "merge only with an existing, unused neighbour (%s)" % need,
                   "orc_code_chunk_free merges %s without establishing %s (facts: %s)" % (arg, need, conds), line=c.line)
     used_clear = [n for n in cf.walk() if n.k == "BinaryOperator" and n.op == "=" and access_path(n.c[0]) == "chunk->used" and strip_casts(n.c[1]).v == 0]
-    rep.check(bool(used_clear), "D1-MERGE", where(cf), "chunk->used=FALSE", "freed chunk is marked unused", "orc_code_chunk_free no longer marks the chunk unused")
+    rep.check(bool(used_clear), merge_rule, where(cf), "chunk->used=FALSE", "freed chunk is marked unused", "orc_code_chunk_free no longer marks the chunk unused")
+
+
+
+def run(ctx):
+    db = ctx.db()
+    rep = ctx.report
+    rep.explanation = (
+        "Three structural necessary conditions of allocator consistency: the field assignments of orc_code_chunk_split and "
+        "orc_code_chunk_merge are evaluated symbolically (linear expression rewriting over the pre-state) and compared with the "
+        "tiling identities (offsets adjacent, sizes sum to the old size, list links consistent, merged chunk freed after its last "
+        "use); orc_code_allocate_codemem derives code and exec from the same chunk offset, marks the chunk used and splits only a "
+        "larger chunk by the aligned size; the memcpy into the chunk copies exactly the size passed to the allocator, whose "
+        "rounding never shrinks it. Histories of compiles and frees are NOT explored.")
+    rep.assumptions += ["linear integer arithmetic without overflow in chunk offsets/sizes (all below the 64 KiB region size)"]
+    d1(db, rep)
 
     # ---- D2 ------------------------------------------------------------------
     al = db.func("orc_code_allocate_codemem", "orccodemem")
